@@ -77,12 +77,14 @@ func (c *Ctx) ruleParamKeys() {
 				}
 				switch cal.Name() {
 				case "SetNamedParameter":
-					if k, ok := constString(pk, call.Args[0]); ok {
-						if written[k] == nil {
-							written[k] = map[string]bool{}
-						}
-						for _, kd := range kinds {
-							written[k][kd] = true
+					if ks, ok := c.possibleStrings(ap, call.Args[0], nil, 0); ok && len(ks) > 0 {
+						for _, k := range ks {
+							if written[k] == nil {
+								written[k] = map[string]bool{}
+							}
+							for _, kd := range kinds {
+								written[k][kd] = true
+							}
 						}
 					} else {
 						r.Undecided("C02-PARAM-KEYS", "writer with a non-constant key", exprString(call), c.pos(call.Pos()))
@@ -273,6 +275,107 @@ func (c *Ctx) ruleHandlerExhaustive() {
 			r.Bad("C02-HANDLER-EXHAUSTIVE", "kind "+kind, "no handler in the dispatch table and no reachable code branches on this kind: such directives are silently ignored", "")
 		}
 	}
+}
+
+// possibleStrings: the set of constant strings an expression of function f can evaluate to: a constant; a local, by
+// the union over its assignments; the i-th result of a call of a library function, by the union over that function's
+// return statements, a returned parameter standing for the argument of the call. ok is false when some source is not
+// of these forms.
+func (c *Ctx) possibleStrings(f *Fn, e ast.Expr, subst map[types.Object]ast.Expr, depth int) ([]string, bool) {
+	if depth > 4 || f == nil {
+		return nil, false
+	}
+	pk := f.Pkg
+	e = ast.Unparen(e)
+	if k, ok := constString(pk, e); ok {
+		return []string{k}, true
+	}
+	id, ok := e.(*ast.Ident)
+	if !ok {
+		return nil, false
+	}
+	obj := pk.TypesInfo.Uses[id]
+	if obj == nil {
+		return nil, false
+	}
+	if arg, isParam := subst[obj]; isParam {
+		return nil, arg == nil // handled by the caller (see below); a bare parameter without a known argument is unknown
+	}
+	var out []string
+	found := false
+	good := true
+	ast.Inspect(f.Decl.Body, func(n ast.Node) bool {
+		as, isAs := n.(*ast.AssignStmt)
+		if !isAs {
+			return true
+		}
+		for i, l := range as.Lhs {
+			lid, isId := ast.Unparen(l).(*ast.Ident)
+			if !isId || (pk.TypesInfo.Defs[lid] != obj && pk.TypesInfo.Uses[lid] != obj) {
+				continue
+			}
+			found = true
+			if len(as.Rhs) == len(as.Lhs) {
+				ks, ok := c.possibleStrings(f, as.Rhs[i], subst, depth+1)
+				if !ok {
+					good = false
+				}
+				out = append(out, ks...)
+				continue
+			}
+			// x, ok := h(args)
+			call, isCall := ast.Unparen(as.Rhs[0]).(*ast.CallExpr)
+			h := c.fnOf(callee(pk, call))
+			if !isCall || h == nil {
+				good = false
+				continue
+			}
+			ast.Inspect(h.Decl.Body, func(m ast.Node) bool {
+				if _, isLit := m.(*ast.FuncLit); isLit {
+					return false
+				}
+				ret, isRet := m.(*ast.ReturnStmt)
+				if !isRet {
+					return true
+				}
+				if i >= len(ret.Results) {
+					good = false // named results / bare return
+					return true
+				}
+				res := ast.Unparen(ret.Results[i])
+				if pi := paramIndexOf(h, res); pi >= 0 && !paramAssigned(h, res) {
+					if a := argFor(callSite{f, call}, pi); a != nil {
+						ks, ok := c.possibleStrings(f, a, subst, depth+1)
+						if !ok {
+							good = false
+						}
+						out = append(out, ks...)
+						return true
+					}
+				}
+				ks, ok := c.possibleStrings(h, res, nil, depth+1)
+				if !ok {
+					good = false
+				}
+				out = append(out, ks...)
+				return true
+			})
+		}
+		return true
+	})
+	if !found || !good {
+		return nil, false
+	}
+	seen := map[string]bool{}
+	var uniq []string
+	for _, k := range out {
+		if k != "" && !seen[k] {
+			seen[k] = true
+			uniq = append(uniq, k)
+		}
+	}
+	sort.Strings(uniq)
+	return uniq, true
 }
 
 // ---------- last response ----------
